@@ -13,7 +13,10 @@ package stack
 
 import (
 	"fmt"
+	"sort"
 	"strings"
+
+	"github.com/renbou/grpcbridge/bridgedesc"
 
 	"google.golang.org/genproto/googleapis/api/annotations"
 	"google.golang.org/protobuf/proto"
@@ -100,6 +103,93 @@ func (c contract) sentinel() (service, bool) {
 		}
 	}
 	return service{}, false
+}
+
+// canon is the contract with its services sorted by name (the order of a description's services comes from a Go map
+// in grpc's reflection server) — the form two descriptions are compared in.
+func (c contract) canon() string {
+	cc := append(contract{}, c...)
+	sort.SliceStable(cc, func(i, j int) bool { return cc[i].name < cc[j].name })
+	return cc.String()
+}
+
+func kindOf(cs, ss bool) string {
+	switch {
+	case cs && ss:
+		return "bd"
+	case cs:
+		return "cs"
+	case ss:
+		return "ss"
+	}
+	return "u"
+}
+
+func bodyOf(requestBodyPath string) string {
+	if requestBodyPath == "" {
+		return "-"
+	}
+	return requestBodyPath
+}
+
+func methodOfDesc(m *bridgedesc.Method) method {
+	name := m.RPCName
+	if i := strings.LastIndexByte(name, '/'); i >= 0 {
+		name = name[i+1:]
+	}
+	out := method{name: name, kind: kindOf(m.ClientStreaming, m.ServerStreaming)}
+	for _, b := range m.Bindings {
+		out.bindings = append(out.bindings, binding{b.HTTPMethod, b.Pattern, bodyOf(b.RequestBodyPath)})
+	}
+	return out
+}
+
+func serviceOfDesc(sv *bridgedesc.Service) service {
+	out := service{name: string(sv.Name)}
+	for i := range sv.Methods {
+		out.methods = append(out.methods, methodOfDesc(&sv.Methods[i]))
+	}
+	return out
+}
+
+// contractOfDesc reads a description the routers hand out back into the line-protocol form.
+func contractOfDesc(t *bridgedesc.Target) contract {
+	var c contract
+	if t == nil {
+		return c
+	}
+	for i := range t.Services {
+		c = append(c, serviceOfDesc(&t.Services[i]))
+	}
+	return c
+}
+
+// digest is the compact form of one service's data used in the records of the direct router lookups:
+// Method.kind.<one body letter per binding> joined by ';'  (body letters: * whole message, - none, s field sub).
+func (sv service) digest() string {
+	var ms []string
+	for _, m := range sv.methods {
+		ms = append(ms, m.name+"."+m.kind+"."+bodyLetters(m.bindings))
+	}
+	return sv.name + ":" + strings.Join(ms, ";")
+}
+
+func bodyLetter(b string) string {
+	switch b {
+	case "*", "-":
+		return b
+	case "sub":
+		return "s"
+	}
+	return "?"
+}
+
+func bodyLetters(bs []binding) string {
+	var sb strings.Builder
+	for _, b := range bs {
+		sb.WriteString(bodyLetter(b.body))
+	}
+	return sb.String()
 }
 
 // ---------- descriptors ----------
